@@ -4,9 +4,9 @@ SPEC = dict(
     design_ref="§3-C02",
     technique="bounded-exhaustive enumeration structured by the kernels' lanes (byte tables, 16-bit SWAR lanes, PDEP deposit, nibble LUT), "
               "every rank / start bit, every dispatch path driven directly through verif_hooks",
-    rule="words: all with popcount <=4 (thorough default build: <=5) and their complements; every 16-bit pattern in each of the 4 lanes "
+    rule="words: all with popcount <=3 (thorough: <=4; thorough default build: <=5) and their complements; every 16-bit pattern in each of the 4 lanes "
          "with the other lanes = {0, ffff, aaaa (thorough also 5555, 00ff, 8001, complement)} or the pattern itself; every byte value in each "
-         "of 8 byte lanes over 7 backgrounds; all words of <=5 runs. Each word x every k in 0..=64 and {65,127,128,255,u32::MAX} on "
+         "of 8 byte lanes over 7 backgrounds; all words of <=4 (thorough <=5) runs. Each word x every k in 0..=64 and {65,127,128,255,u32::MAX} on "
          "select_in_word (dispatch), _ctz, _broadword, _pdep, and x every start bit 0..=64 and {65,127,128,u32::MAX} on find_close_in_word, plus "
          "find_unmatched_close_in_word, popcount_word, popcount_word_portable. select_in_byte: all 256 bytes x k 0..=8 (complete). Blocks: "
          "every byte value at each of 64 byte positions over 5 backgrounds, all blocks over W8 with <=3 (thorough <=4) non-filler words, on "
